@@ -2,7 +2,7 @@
   C11 — BRANCH PINS for src/function/{evaluate,factorial,harmonic,logistic,exponential}.rs.
   Sections 1–5 are branch logic for EVERY carrier α (IEEE doubles included); section 6 uses ℝ for
   the one statement that needs real arithmetic (the factorial table is strictly increasing).
-  Tables: `Statrs/Draft/Spec/FunctionBranches.lean`.
+  Tables: `Statrs/Spec/FunctionBranches.lean`.
 
   What is pinned:
   * `polynomial` IS Horner's rule with the constant term first (`polynomial_eq_horner`, all α);
@@ -19,8 +19,7 @@
 import Mathlib.Tactic
 import Statrs.Real.Simp
 import Statrs.Inst.Float
-import Statrs.Props.C11.Structure
-import Statrs.Draft.Spec.FunctionBranches
+import Statrs.Spec.FunctionBranches
 namespace Statrs.Props.C11.BranchPins
 open Statrs Statrs.Gen Statrs.Spec.FunctionBranches
 set_option linter.unusedSectionVars false
@@ -225,20 +224,22 @@ theorem binomial_eq_spec (n k : Int) : F.factorial.binomial (α := α) n k = bin
   unfold F.factorial.binomial; simp only [binomialSpec, firstMatch]
 theorem ln_binomial_eq_spec (n k : Int) : F.factorial.ln_binomial (α := α) n k = lnBinomialSpec n k := by
   unfold F.factorial.ln_binomial; simp only [lnBinomialSpec, firstMatch]
-/-- `k > n`: `0.0` (also `Statrs.Props.C11.binomial_of_lt`) -/
-theorem binomial_gt (n k : Int) (h : n < k) : F.factorial.binomial (α := α) n k = (0.0 : α) :=
-  Statrs.Props.C11.binomial_of_lt n k h
+/-- `k > n`: `0.0` (also `Statrs.Props.C11.binomial_of_lt` in Props/C11/Structure.lean) -/
+theorem binomial_gt (n k : Int) (h : n < k) : F.factorial.binomial (α := α) n k = (0.0 : α) := by
+  unfold F.factorial.binomial; rw [if_pos h]
 /-- `k ≤ n`: `floor(0.5 + exp(ln n! − ln k! − ln (n−k)!))`, rounding constant `0.5` -/
 theorem binomial_le (n k : Int) (h : ¬ n < k) :
     F.factorial.binomial (α := α) n k = RFun.floor ((0.5 : α) + (RFun.exp (((F.factorial.ln_factorial (α := α) n)
       - (F.factorial.ln_factorial (α := α) k)) - (F.factorial.ln_factorial (α := α) (n - k))))) := by
   unfold F.factorial.binomial; rw [if_neg h]; unfold usub; rw [if_neg h]
-/-- `k > n`: `−inf`; `k ≤ n`: the log-factorial difference (`Statrs.Props.C11.ln_binomial_of_lt/_of_le`) -/
-theorem ln_binomial_gt (n k : Int) (h : n < k) : F.factorial.ln_binomial (α := α) n k = (RFun.negInf : α) :=
-  Statrs.Props.C11.ln_binomial_of_lt n k h
-theorem ln_binomial_le (n k : Int) (h : k ≤ n) :
+/-- `k > n`: `−inf`; `k ≤ n`: the log-factorial difference (also `Statrs.Props.C11.ln_binomial_of_lt/_of_le`
+    in Props/C11/Structure.lean) -/
+theorem ln_binomial_gt (n k : Int) (h : n < k) : F.factorial.ln_binomial (α := α) n k = (RFun.negInf : α) := by
+  unfold F.factorial.ln_binomial; rw [if_pos h]
+theorem ln_binomial_le (n k : Int) (h : ¬ n < k) :
     F.factorial.ln_binomial (α := α) n k = (F.factorial.ln_factorial (α := α) n - F.factorial.ln_factorial (α := α) k)
-      - F.factorial.ln_factorial (α := α) (n - k) := Statrs.Props.C11.ln_binomial_of_le n k h
+      - F.factorial.ln_factorial (α := α) (n - k) := by
+  unfold F.factorial.ln_binomial; rw [if_neg h]; unfold usub; rw [if_neg h]
 
 /-- the single fold of `checked_multinomial` computes `(Σ nᵢ, ln n! − Σ ln nᵢ!)` -/
 theorem multinomial_fold (ni : List Int) (s : Int) (r : α) :
@@ -395,27 +396,41 @@ theorem expint_eq_spec (x : α) (n : Int) : F.exponential.integral x n = expIntS
 
 end generic
 
-/-! ## 6. over ℝ: the factorial table is strictly increasing from index 1 -/
+/-! ## 6. over ℝ: the factorial table holds `n!` and is strictly increasing from index 1 -/
 
-/-- `factorial n = n!` on the table range is `Statrs.Props.C11.factorial_eq`; hence
-    `1 ≤ m < n ≤ 170 ⇒ factorial m < factorial n` (index 0 and 1 both hold `1`) -/
-theorem factorial_strictMono (m n : Nat) (hm : 1 ≤ m) (hmn : m < n) (hn : n ≤ 170) :
-    F.factorial.factorial (α := ℝ) (m : Int) < F.factorial.factorial (α := ℝ) (n : Int) := by
-  rw [Statrs.Props.C11.factorial_eq m (by omega), Statrs.Props.C11.factorial_eq n hn]
-  exact_mod_cast (Nat.factorial_lt (by omega)).mpr hmn
-/-- the same for the table itself -/
+/-- over ℝ the table recurrence gives `FCACHE[n] = n!` (the same fact, by a different route, is
+    `Statrs.Lemmas.FunctionLayer.fcache_get` / `Statrs.Props.C11.factorial_eq` in Props/C11/Structure.lean) -/
+theorem FCACHE_real (n : Nat) (h : n ≤ 170) :
+    listGet (F.factorial.FCACHE (α := ℝ)) (n : Int) = (n.factorial : ℝ) := by
+  induction n with
+  | zero =>
+    have h0 := FCACHE_zero (α := ℝ)
+    simp only [Nat.cast_zero, Nat.factorial_zero, Nat.cast_one]
+    rw [h0]; norm_num
+  | succ k ih =>
+    have hs := FCACHE_succ (α := ℝ) (k + 1) (by omega) h
+    have hk : (((k + 1 : Nat) : Int) - 1) = (k : Int) := by push_cast; ring
+    rw [hs, hk, ih (by omega), Nat.factorial_succ, rfun_ofInt]
+    push_cast; ring
+/-- `factorial n = n!` for `n ≤ 170` -/
+theorem factorial_real (n : Nat) (h : n ≤ 170) : F.factorial.factorial (α := ℝ) (n : Int) = (n.factorial : ℝ) := by
+  rw [factorial_table n h, FCACHE_real n h]
+/-- `1 ≤ m < n ≤ 170 ⇒ FCACHE[m] < FCACHE[n]`: strictly increasing from index 1
+    (indices 0 and 1 both hold `1`, `FCACHE_zero_one`) -/
 theorem FCACHE_strictMono (m n : Nat) (hm : 1 ≤ m) (hmn : m < n) (hn : n ≤ 170) :
     listGet (F.factorial.FCACHE (α := ℝ)) (m : Int) < listGet (F.factorial.FCACHE (α := ℝ)) (n : Int) := by
-  rw [← factorial_table m (by omega), ← factorial_table n hn]
-  exact factorial_strictMono m n hm hmn hn
+  rw [FCACHE_real m (by omega), FCACHE_real n hn]
+  exact_mod_cast (Nat.factorial_lt (by omega)).mpr hmn
+theorem factorial_strictMono (m n : Nat) (hm : 1 ≤ m) (hmn : m < n) (hn : n ≤ 170) :
+    F.factorial.factorial (α := ℝ) (m : Int) < F.factorial.factorial (α := ℝ) (n : Int) := by
+  rw [factorial_table m (by omega), factorial_table n hn]
+  exact FCACHE_strictMono m n hm hmn hn
 theorem FCACHE_zero_one : listGet (F.factorial.FCACHE (α := ℝ)) 0 = 1 ∧ listGet (F.factorial.FCACHE (α := ℝ)) 1 = 1 := by
-  have h0 := factorial_table (α := ℝ) 0 (by omega)
-  have h1 := factorial_table (α := ℝ) 1 (by omega)
-  rw [Statrs.Props.C11.factorial_eq 0 (by omega)] at h0
-  rw [Statrs.Props.C11.factorial_eq 1 (by omega)] at h1
+  have h0 := FCACHE_real 0 (by omega)
+  have h1 := FCACHE_real 1 (by omega)
   constructor
-  · simpa using h0.symm
-  · simpa using h1.symm
+  · simpa using h0
+  · simpa using h1
 
 /-! ## non-vacuity -/
 
